@@ -1,2 +1,242 @@
 import PV.Model.Parser
 import PV.Generated.Prec
+import PV.Proofs.SyntaxSuffix
+import PV.Proofs.SyntaxGrouping
+/-
+  C07 — the parser groups operators as Python does, and consumes the whole input or raises.
+
+  Proved about the parser model (`parseExpr …`, tied to `pymbolic.parser.Parser` by the
+  correspondence stream), for an ARBITRARY precedence table `P`:
+  * `rest_is_suffix`, `consumes_all_or_error`: a parse function only ever removes a prefix of its
+    input, and `parseTop` succeeds only if nothing is left;
+  * `two_operator_grouping`, `prefix_operator_grouping`: `a o1 b o2 c` and `p a o b` are grouped
+    according to one comparison of table entries (`absorbs2`, `absorbsPre`);
+  and, for the table regenerated from /repo, against Python's own grouping written down from the
+  language reference (`pyGroup`, `pyPrefixWide`):
+  * `grouping_deviations_current`, `prefix_deviations_current`: the operator pairs on which the
+    parser deviates from Python are EXACTLY the listed ones.
+-/
+namespace PV.C07
+open PV PV.Syntax
+
+/-! ### (a) the input is consumed from the left, completely or not at all -/
+
+/-- whatever `parse_expression` leaves over is a suffix of what it was given -/
+theorem rest_is_suffix (P : ParserPrec) (fuel m : Nat) (ts : List Tok) (e : Expr) (rest : List Tok)
+    (h : parseExpr P fuel m ts = .ok (e, rest)) : rest <:+ ts :=
+  (sufAll P fuel).1 m ts e rest h
+
+/-- the same for the argument-list parser -/
+theorem arglist_rest_is_suffix (P : ParserPrec) (fuel : Nat) (ts : List Tok) (a kn kv ca x)
+    (rest : List Tok) (h : parseArglist P fuel ts a kn kv ca = .ok (x, rest)) : rest <:+ ts :=
+  (sufAll P fuel).2.2.2 ts a kn kv ca x rest h
+
+/-- **The parser consumes the whole input or raises.**  `parseTop` returns a tree only when
+`parse_expression` stopped at the end of the token list; if tokens are left over the result is
+the parse error. -/
+theorem consumes_all_or_error (P : ParserPrec) (m : Nat) (ts : List Tok) :
+    (∀ e, parseTop P m ts = .ok e → parseExpr P (2 * ts.length + 8) m ts = .ok (e, [])) ∧
+    (∀ e t rest, parseExpr P (2 * ts.length + 8) m ts = .ok (e, t :: rest) →
+      parseTop P m ts = .error .parse ∧ t :: rest <:+ ts) := by
+  constructor
+  · intro e h
+    unfold parseTop at h
+    split at h
+    · simp only [pure, Except.pure, Except.ok.injEq] at h; subst h; assumption
+    · cases h
+    · cases h
+  · intro e t rest h
+    refine ⟨by simp [parseTop, h, throw, throwThe, MonadExceptOf.throw], ?_⟩
+    exact rest_is_suffix P _ m ts e _ h
+
+example : parseTop Generated.parserPrec 0 [.ident "a", .sym ")", .ident "b"] = .error .parse := by
+  decide +kernel
+
+/-! ### (b) the grouping of two operators, from the table -/
+
+/-- the 16 binary operator tokens shared with Python:
+`+ - * / // % ** << >> & | ^ == < and or` -/
+def binToks : List BinTok :=
+  [.op .plus, .minus, .op .times, .op .quot, .op .floordiv, .op .rem, .op .pow, .op .lshift,
+   .op .rshift, .op .band, .op .bor, .op .bxor, .op (.cmp .eq), .op (.cmp .lt), .op .land,
+   .op .lor]
+
+example : binToks.map BinTok.sym =
+    ["+", "-", "*", "/", "//", "%", "**", "<<", ">>", "&", "|", "^", "==", "<", "and", "or"] := by
+  decide
+
+/-- the right operand of `o1` swallows a following `o2`: the guard of `o2` exceeds the level
+at which the right operand of `o1` is parsed -/
+def absorbs2 (P : ParserPrec) (o1 o2 : BinTok) : Bool := decide (o2.guard P > o1.rhs P)
+
+/-- the operand of a prefix operator swallows a following `o` -/
+def absorbsPre (P : ParserPrec) (o : BinTok) : Bool := decide (o.guard P > P.unary)
+
+/-- every binary operator is absorbed at the outermost level -/
+def guardsPositive (P : ParserPrec) : Bool := binToks.all fun o => decide (o.guard P > 0)
+
+theorem guards_pos {P : ParserPrec} (h : guardsPositive P = true) (o : BinTok) : o.guard P > 0 := by
+  simp only [guardsPositive, binToks, List.all_cons, List.all_nil, Bool.and_true,
+    Bool.and_eq_true, decide_eq_true_eq] at h
+  rcases o with o | _
+  · cases o <;> simp_all [BinTok.guard, Infix.guard]
+  · simp_all [BinTok.guard, Infix.guard]
+
+/-- **Two-operator grouping, generic in the table.**  `a o1 b o2 c` parses to the right
+grouping `a o1 (b o2 c)` if `absorbs2 P o1 o2`, and to the left grouping `(a o1 b) o2 c`
+otherwise (the nodes are built by `BinTok.build`: sums and products are spliced, `-` negates
+its right operand). -/
+theorem two_operator_grouping {P : ParserPrec} (hP : guardsPositive P = true) (o1 o2 : BinTok)
+    (a b c : String) :
+    parseTop P 0 [.ident a, .sym o1.sym, .ident b, .sym o2.sym, .ident c] =
+      if absorbs2 P o1 o2 then o2.build (.var b) (.var c) >>= o1.build (.var a)
+      else o1.build (.var a) (.var b) >>= fun l => o2.build l (.var c) := by
+  rw [grouping (guards_pos hP) o1 o2 a b c]
+  simp [absorbs2]
+
+/-- **Prefix-operator grouping, generic in the table.**  `p a o b` (`p` one of `-`, `~`, `not`)
+parses to `p (a o b)` if `absorbsPre P o`, and to `(p a) o b` otherwise. -/
+theorem prefix_operator_grouping {P : ParserPrec} (hP : guardsPositive P = true) (p : PreTok)
+    (o : BinTok) (a b : String) :
+    parseTop P 0 [.sym p.sym, .ident a, .sym o.sym, .ident b] =
+      if absorbsPre P o then o.build (.var a) (.var b) >>= p.build
+      else p.build (.var a) >>= fun l => o.build l (.var b) := by
+  rw [prefix_grouping (guards_pos hP) p o a b]
+  simp [absorbsPre]
+
+theorem guards_positive_current : guardsPositive Generated.parserPrec = true := by decide
+
+example : parseTop Generated.parserPrec 0 [.ident "a", .sym "*", .ident "b", .sym "/", .ident "c"]
+    = .ok (.nary .prod [.var "a", .bin .quot (.var "b") (.var "c")]) := by
+  rw [show "*" = (BinTok.op .times).sym from rfl, show "/" = (BinTok.op .quot).sym from rfl,
+    two_operator_grouping guards_positive_current]
+  decide +kernel
+
+/-! ### Python's own grouping (The Python Language Reference, 6.17 "Operator precedence") -/
+
+/-- binding strength in Python, weakest first: `or`, `and`, `not`, comparisons, `|`, `^`, `&`,
+shifts, `+ -`, `* / // %`, unary `- ~`, `**` -/
+def pyPrec : BinTok → Nat
+  | .op .lor => 1 | .op .land => 2 | .op (.cmp _) => 4 | .op .bor => 5 | .op .bxor => 6
+  | .op .band => 7 | .op .lshift | .op .rshift => 8 | .op .plus | .minus => 9
+  | .op .times | .op .quot | .op .floordiv | .op .rem => 10 | .op .pow => 12
+
+def pyPrecPre : PreTok → Nat
+  | .lnot => 3 | .neg | .bnot => 11
+
+inductive Grouping where
+  | left     -- `(a o1 b) o2 c`
+  | right    -- `a o1 (b o2 c)`
+  | chain    -- `a < b < c` means `(a < b) and (b < c)`
+  deriving Repr, DecidableEq
+
+def isCmp : BinTok → Bool
+  | .op (.cmp _) => true
+  | _ => false
+
+/-- Python: all binary operators associate to the left except `**`; comparisons chain -/
+def pyGroup (o1 o2 : BinTok) : Grouping :=
+  if isCmp o1 && isCmp o2 then .chain
+  else if pyPrec o2 > pyPrec o1 then .right
+  else if pyPrec o2 = pyPrec o1 ∧ o1 = .op .pow then .right
+  else .left
+
+def parserGroup (P : ParserPrec) (o1 o2 : BinTok) : Grouping :=
+  if absorbs2 P o1 o2 then .right else .left
+
+/-- Python: `p a o b` is `p (a o b)` iff `o` binds tighter than `p` (`**` binds tighter than a
+unary operator on its left) -/
+def pyPrefixWide (p : PreTok) (o : BinTok) : Bool := decide (pyPrec o > pyPrecPre p)
+
+def allPairs : List (BinTok × BinTok) := binToks.flatMap fun a => binToks.map fun b => (a, b)
+
+/-- operator pairs `(o1, o2)` on which `a o1 b o2 c` is grouped differently from Python -/
+def groupingDeviations (P : ParserPrec) : List (BinTok × BinTok) :=
+  allPairs.filter fun p => parserGroup P p.1 p.2 != pyGroup p.1 p.2
+
+def prefixDeviations (P : ParserPrec) : List (PreTok × BinTok) :=
+  ([PreTok.neg, .bnot, .lnot].flatMap fun p => binToks.map fun o => (p, o)).filter
+    fun po => absorbsPre P po.2 != pyPrefixWide po.1 po.2
+
+open PV.Generated in
+/-- **The grouping matrix of the current code against Python's.**  Of the 256 pairs of binary
+operators, the parser groups `a o1 b o2 c` differently from Python on exactly these 21:
+* the right operand of `*` is parsed at the level of a sum, so it swallows a following
+  `* / // %` (`a*b/c` is `a*(b/c)`; for `a*b*c` the difference disappears once products are
+  flattened);
+* comparisons rank ABOVE `& | ^` (`a & b == c` is `a & (b == c)`, `a == b & c` is
+  `(a == b) & c`);
+* `|` and `^` share one level (`a | b ^ c` is `(a | b) ^ c`);
+* comparisons nest to the left instead of chaining. -/
+theorem grouping_deviations_current :
+    (groupingDeviations parserPrec).map (fun p => (p.1.sym, p.2.sym)) =
+      [("*", "*"), ("*", "/"), ("*", "//"), ("*", "%"),
+       ("&", "=="), ("&", "<"), ("|", "^"), ("|", "=="), ("|", "<"), ("^", "=="), ("^", "<"),
+       ("==", "&"), ("==", "|"), ("==", "^"), ("==", "=="), ("==", "<"),
+       ("<", "&"), ("<", "|"), ("<", "^"), ("<", "=="), ("<", "<")] := by
+  decide
+
+open PV.Generated in
+/-- **Prefix operators against binary operators, current code against Python.**  The operand of
+a prefix operator is parsed at `_PREC_UNARY`, above every binary operator: `-a**b` is `(-a)**b`,
+`~a**b` is `(~a)**b`, and `not a o b` is `(not a) o b` for every binary `o` — Python agrees only
+for `and` / `or`. -/
+theorem prefix_deviations_current :
+    (prefixDeviations parserPrec).map (fun p => (p.1.sym, p.2.sym)) =
+      [("-", "**"), ("~", "**"),
+       ("not", "+"), ("not", "-"), ("not", "*"), ("not", "/"), ("not", "//"), ("not", "%"),
+       ("not", "**"), ("not", "<<"), ("not", ">>"), ("not", "&"), ("not", "|"), ("not", "^"),
+       ("not", "=="), ("not", "<")] := by
+  decide
+
+open PV.Generated in
+/-- on every other pair of binary operators the parser model returns Python's grouping -/
+theorem grouping_agrees_current (o1 o2 : BinTok) (h1 : o1 ∈ binToks) (h2 : o2 ∈ binToks)
+    (hd : (o1, o2) ∉ groupingDeviations parserPrec) (a b c : String) :
+    parseTop parserPrec 0 [.ident a, .sym o1.sym, .ident b, .sym o2.sym, .ident c] =
+      match pyGroup o1 o2 with
+      | .right => o2.build (.var b) (.var c) >>= o1.build (.var a)
+      | _ => o1.build (.var a) (.var b) >>= fun l => o2.build l (.var c) := by
+  rw [two_operator_grouping guards_positive_current]
+  have hmem : (o1, o2) ∈ allPairs := by
+    simp only [allPairs, List.mem_flatMap, List.mem_map]
+    exact ⟨o1, h1, o2, h2, rfl⟩
+  have : parserGroup parserPrec o1 o2 = pyGroup o1 o2 := by
+    by_cases hne : parserGroup parserPrec o1 o2 = pyGroup o1 o2
+    · exact hne
+    · exact absurd (List.mem_filter.mpr ⟨hmem, by simpa using hne⟩) hd
+  have hnc : pyGroup o1 o2 ≠ .chain := by
+    rw [← this]; unfold parserGroup; split <;> simp
+  unfold parserGroup at this
+  split at this
+  · rw [← this]; simp [*]
+  · revert hnc
+    rw [← this]; simp [*]
+
+/-- a pair on which parser and Python agree, and one on which they do not -/
+example : parserGroup Generated.parserPrec (.op .plus) (.op .times) = pyGroup (.op .plus) (.op .times) := by
+  decide
+example : parserGroup Generated.parserPrec (.op .bor) (.op .bxor) = .left ∧
+    pyGroup (.op .bor) (.op .bxor) = .right := by decide
+
+/-- the deviations as parses: `a | b ^ c`, `a & b == c`, `a * b / c`, `a == b == c`, `-a ** b` -/
+theorem bor_bxor_grouping_cex :
+    parseTop Generated.parserPrec 0 [.ident "a", .sym "|", .ident "b", .sym "^", .ident "c"]
+      = .ok (.nary .bxor [.nary .bor [.var "a", .var "b"], .var "c"]) := by decide +kernel
+theorem band_cmp_grouping_cex :
+    parseTop Generated.parserPrec 0 [.ident "a", .sym "&", .ident "b", .sym "==", .ident "c"]
+      = .ok (.nary .band [.var "a", .cmp .eq (.var "b") (.var "c")]) := by decide +kernel
+theorem times_quot_grouping_cex :
+    parseTop Generated.parserPrec 0 [.ident "a", .sym "*", .ident "b", .sym "/", .ident "c"]
+      = .ok (.nary .prod [.var "a", .bin .quot (.var "b") (.var "c")]) := by decide +kernel
+theorem chained_comparison_cex :
+    parseTop Generated.parserPrec 0 [.ident "a", .sym "==", .ident "b", .sym "==", .ident "c"]
+      = .ok (.cmp .eq (.cmp .eq (.var "a") (.var "b")) (.var "c")) := by decide +kernel
+theorem neg_pow_grouping_cex :
+    parseTop Generated.parserPrec 0 [.sym "-", .ident "a", .sym "**", .ident "b"]
+      = .ok (.bin .pow (.nary .prod [.const (.int (-1)), .var "a"]) (.var "b")) := by decide +kernel
+theorem not_cmp_grouping_cex :
+    parseTop Generated.parserPrec 0 [.sym "not", .ident "a", .sym "==", .ident "b"]
+      = .ok (.cmp .eq (.un .lnot (.var "a")) (.var "b")) := by decide +kernel
+
+end PV.C07
